@@ -229,7 +229,7 @@ def run(tier, seed, started):
     c = res.counters
     if c.get('txs', 0) < 500 or c.get('block_chunk_pairs', 0) < 5000 or \
             len(res.sets.get('block_shapes', ())) != len(BLOCK_SHAPES):
-        raise common.Broken(f'vacuous C13 run: {c}')
+        common.vacuous(PROP, res, f'vacuous C13 run: {c}')
     coverage = {
         'evaluations': c['txs'] + c['truncations'] + c['block_chunk_pairs'],
         'distinct_nontrivial': len(res.sets['tx_shapes']) + c['block_chunk_pairs'],
